@@ -4,6 +4,7 @@ import (
 	"bytes"
 	"encoding/binary"
 	"errors"
+	"fmt"
 	"os"
 	"strings"
 	"time"
@@ -71,9 +72,32 @@ func LoadCCache(cpath string) (*CCache, error) {
 	return c, err
 }
 
+// parseError is what the read helpers panic with when the data end before a field does or a length or count
+// field cannot be right. Unmarshal recovers it and returns it as an error.
+type parseError string
+
+func (e parseError) Error() string { return string(e) }
+
+// need checks that n more bytes are available at position p.
+func need(b []byte, p *int, n int) {
+	if n < 0 || *p < 0 || *p > len(b) || n > len(b)-*p {
+		panic(parseError(fmt.Sprintf("invalid credential cache data: %d bytes needed at offset %d but the data is %d bytes long", n, *p, len(b))))
+	}
+}
+
 // Unmarshal a byte slice of credential cache data into CCache type.
-func (c *CCache) Unmarshal(b []byte) error {
+func (c *CCache) Unmarshal(b []byte) (err error) {
+	defer func() {
+		if r := recover(); r != nil {
+			pe, ok := r.(parseError)
+			if !ok {
+				panic(r)
+			}
+			err = pe
+		}
+	}()
 	p := 0
+	need(b, &p, 2)
 	//The first byte of the file always has the value 5
 	if int8(b[p]) != 5 {
 		return errors.New("Invalid credential cache data. First byte does not equal 5")
@@ -119,6 +143,7 @@ func parseHeader(b []byte, p *int, c *CCache, e *binary.ByteOrder) error {
 		f := headerField{}
 		f.tag = uint16(readInt16(b, p, e))
 		f.length = uint16(readInt16(b, p, e))
+		need(b, p, int(f.length))
 		f.value = b[*p : *p+int(f.length)]
 		*p += int(f.length)
 		if !f.known() {
@@ -147,6 +172,10 @@ func parsePrincipal(b []byte, p *int, c *CCache, e *binary.ByteOrder) (princ pri
 	}
 	lenRealm := readInt32(b, p, e)
 	princ.Realm = string(readBytes(b, p, int(lenRealm), e))
+	if nc > 0 {
+		// every component takes at least the four bytes of its length
+		need(b, p, 4*nc)
+	}
 	for i := 0; i < nc; i++ {
 		l := readInt32(b, p, e)
 		princ.PrincipalName.NameString = append(princ.PrincipalName.NameString, string(readBytes(b, p, int(l), e)))
@@ -180,11 +209,20 @@ func parseCredential(b []byte, p *int, c *CCache, e *binary.ByteOrder) (cred *Cr
 	cred.TicketFlags = types.NewKrbFlags()
 	binary.BigEndian.PutUint32(cred.TicketFlags.Bytes, uint32(readInt32(b, p, e)))
 	l := int(readInt32(b, p, e))
+	// The counts size allocations: every address and authdata element takes at least six bytes (type and length).
+	if l < 0 {
+		panic(parseError(fmt.Sprintf("invalid credential cache data: address count %d", l)))
+	}
+	need(b, p, 6*l)
 	cred.Addresses = make([]types.HostAddress, l, l)
 	for i := range cred.Addresses {
 		cred.Addresses[i] = readAddress(b, p, e)
 	}
 	l = int(readInt32(b, p, e))
+	if l < 0 {
+		panic(parseError(fmt.Sprintf("invalid credential cache data: authdata count %d", l)))
+	}
+	need(b, p, 6*l)
 	cred.AuthData = make([]types.AuthorizationDataEntry, l, l)
 	for i := range cred.AuthData {
 		cred.AuthData[i] = readAuthDataEntry(b, p, e)
@@ -296,6 +334,7 @@ func readTimestamp(b []byte, p *int, e *binary.ByteOrder) time.Time {
 
 // Read bytes representing an eight bit integer.
 func readInt8(b []byte, p *int, e *binary.ByteOrder) (i int8) {
+	need(b, p, 1)
 	buf := bytes.NewBuffer(b[*p : *p+1])
 	binary.Read(buf, *e, &i)
 	*p++
@@ -304,6 +343,7 @@ func readInt8(b []byte, p *int, e *binary.ByteOrder) (i int8) {
 
 // Read bytes representing a sixteen bit integer.
 func readInt16(b []byte, p *int, e *binary.ByteOrder) (i int16) {
+	need(b, p, 2)
 	buf := bytes.NewBuffer(b[*p : *p+2])
 	binary.Read(buf, *e, &i)
 	*p += 2
@@ -312,6 +352,7 @@ func readInt16(b []byte, p *int, e *binary.ByteOrder) (i int16) {
 
 // Read bytes representing a thirty two bit integer.
 func readInt32(b []byte, p *int, e *binary.ByteOrder) (i int32) {
+	need(b, p, 4)
 	buf := bytes.NewBuffer(b[*p : *p+4])
 	binary.Read(buf, *e, &i)
 	*p += 4
@@ -319,6 +360,7 @@ func readInt32(b []byte, p *int, e *binary.ByteOrder) (i int32) {
 }
 
 func readBytes(b []byte, p *int, s int, e *binary.ByteOrder) []byte {
+	need(b, p, s)
 	buf := bytes.NewBuffer(b[*p : *p+s])
 	r := make([]byte, s)
 	binary.Read(buf, *e, &r)
